@@ -1038,6 +1038,18 @@ def bloch_messiah(S, tol=1e-10, rounding=9):
         qomega = np.transpose(ut) @ (omega) @ ut
         st = pmat @ np.diag(ss) @ pmat
 
+        # Unsqueezed modes (singular value 1) form a single degenerate subspace which
+        # mixes both halves of the basis; rotate it to a symplectic basis first
+        ones = np.where(np.round(np.diag(st), rounding)[:n] == 1)[0]
+        if len(ones) > 1:
+            idx = np.concatenate([ones, ones + n])
+            _, vecs = np.linalg.eigh(1j * qomega[np.ix_(idx, idx)])
+            vecs = np.sqrt(2) * vecs[:, : len(ones)]
+            rot = np.identity(2 * n)
+            rot[np.ix_(idx, idx)] = np.hstack([vecs.real, vecs.imag])
+            ut = ut @ rot
+            qomega = np.transpose(rot) @ qomega @ rot
+
         # Identifying degenerate subspaces
         result = []
         for _k, g in groupby(np.round(np.diag(st), rounding)[:n]):
@@ -1058,8 +1070,8 @@ def bloch_messiah(S, tol=1e-10, rounding=9):
 
         pmat1 = block_diag(*(u_list + v_list))
 
-        st1 = pmat1.T @ pmat @ np.diag(ss) @ pmat @ pmat1
-        ut1 = uss @ pmat @ pmat1
+        st1 = pmat1.T @ st @ pmat1
+        ut1 = ut @ pmat1
         v1 = np.transpose(ut1) @ u
 
     else:
